@@ -51,7 +51,7 @@ def P(mat, u, v):
 
 # rules that keep their verdict however the code is laid out (decided by term equality, effect analysis or dominance over
 # resolved calls); every other rule of this check is a template rule (vcheck.core.Check.obt)
-SEMANTIC = ('R10.1', 'R10.12', 'R10.13', 'R10.5', 'R10.8')
+SEMANTIC = ('R10.1', 'R10.2', 'R10.3', 'R10.4', 'R10.5', 'R10.6', 'R10.7', 'R10.8', 'R10.9', 'R10.10', 'R10.12', 'R10.13')
 
 
 def run(chk):
@@ -91,42 +91,71 @@ def _projvar(fi):
 
 
 def defassign(chk, repo):
-    """returns the set of function names with a use-before-assignment finding"""
+    """every local of image2sky / sky2image is assigned before use for all projection x model x distort x find combinations.
+    Decided twice: by enumerating the option combinations in the term evaluator (a read of an unassigned local on a concrete path
+    stops it with 'unknown name'), which does not depend on how the options are tested, and - when the function keeps the
+    projection name in a local that its tests compare with literals - on the flag-specialised CFG as well.
+    Returns the set of function names with a finding."""
+    import re
     bad = set()
+    x, y, lon, lat = symx.symbols("x", "y", "lon", "lat")
     for name, opts in (("image2sky", ("distort",)), ("sky2image", ("distort", "find"))):
         fi = repo.func(W + name)
-        cfg = cfg_of(fi)
-        pv = _projvar(fi)
         findings = {}
         ncomb = 0
         for proj in PROJS:
-            for model in (True, False):
+            for model in ("none", "scamp", "sip"):
                 for vals in itertools.product((True, False), repeat=len(opts)):
-                    flags = dict(zip(opts, vals))
-                    flags[pv] = proj
-                    view = cfg.specialise(flags=flags, assume={HASMODEL: model})
-                    IN = view.definitely_assigned()
-                    allv = set(cfg_params(cfg))
-                    for n in view.nodes():
-                        allv |= set(cfg.defs_uses(n)[0])
+                    st, _, _, _ = _state(proj, model)
+                    se = _mkse(repo, ("image2sph", "sph2image", "_findxy", "Distort", "ApplyCDMatrix"))
+                    args = dict(st, x=x, y=y) if name == "image2sky" else dict(st, longitude=lon, latitude=lat)
                     ncomb += 1
-                    for n in view.nodes():
-                        d, u = cfg.defs_uses(n)
-                        for v in u:
-                            if v in allv and v not in IN[n.id] and n.ast is not None:
-                                key = "%s::use-before-assignment@%s" % (name, norm(n.ast).split("\n")[0][:80])
-                                f = findings.setdefault(key, (n, set(), []))
-                                f[1].add(v)
-                                c = "projection=%s model-present=%s %s" % (proj, model, " ".join("%s=%s" % kv for kv in zip(opts, vals)))
-                                if c not in f[2]:
-                                    f[2].append(c)
-        for key, (n, vs, combos) in findings.items():
+                    try:
+                        se.run(fi, args, dict(zip(opts, vals)))
+                    except symx.Unsupported as e:
+                        m = re.search(r"unknown name `(\w+)` at \S+:(\d+)", str(e))
+                        if not m:
+                            raise
+                        var, line = m.group(1), int(m.group(2))
+                        stmt = next((norm(z).split("\n")[0][:80] for z in walk_no_nested(fi.node) if isinstance(z, ast.stmt) and getattr(z, "lineno", -1) == line), "line %d" % line)
+                        f = findings.setdefault("%s::use-before-assignment@%s" % (name, stmt), (line, set(), []))
+                        f[1].add(var)
+                        f[2].append("projection=%s model=%s %s" % (proj, model, " ".join("%s=%s" % kv for kv in zip(opts, vals))))
+        # flag-specialised CFG (only when the projection name is held in a local)
+        try:
+            pv = _projvar(fi)
+        except AnalysisError:
+            pv = None
+        if pv is not None:
+            cfg = cfg_of(fi)
+            for proj in PROJS:
+                for model in (True, False):
+                    for vals in itertools.product((True, False), repeat=len(opts)):
+                        flags = dict(zip(opts, vals))
+                        flags[pv] = proj
+                        view = cfg.specialise(flags=flags, assume={HASMODEL: model})
+                        IN = view.definitely_assigned()
+                        allv = set(cfg_params(cfg))
+                        for n in view.nodes():
+                            allv |= set(cfg.defs_uses(n)[0])
+                        ncomb += 1
+                        for n in view.nodes():
+                            d, u = cfg.defs_uses(n)
+                            for v in u:
+                                if v in allv and v not in IN[n.id] and n.ast is not None:
+                                    key = "%s::use-before-assignment@%s" % (name, norm(n.ast).split("\n")[0][:80])
+                                    f = findings.setdefault(key, (n.ast.lineno, set(), []))
+                                    f[1].add(v)
+                                    c = "projection=%s model-present=%s %s" % (proj, model, " ".join("%s=%s" % kv for kv in zip(opts, vals)))
+                                    if c not in f[2]:
+                                        f[2].append(c)
+        for key, (line, vs, combos) in findings.items():
             bad.add(name)
-            chk.ob("R10.1", key, False, fi.where(n.ast),
+            chk.ob("R10.1", key, False, "%s:%d" % (fi.where().rsplit(":", 1)[0], line),
                    "local(s) %s read but not assigned on every path for: %s" % (", ".join("`%s`" % v for v in sorted(vs)), "; ".join(combos[:6]) + (" ..." if len(combos) > 6 else "")))
         if not findings:
-            chk.ob("R10.1", "%s::definite-assignment[%d combinations]" % (name, ncomb), True, fi.where(),
-                   "every local is assigned before use for all projection x model-present x %s combinations" % " x ".join(opts))
+            chk.ob("R10.1", "%s::definite-assignment" % name, True, fi.where(),
+                   "every local is assigned before use for all projection x model x %s combinations (%d paths)" % (" x ".join(opts), ncomb))
     return bad
 
 
@@ -154,6 +183,7 @@ def _mul(m, u, v):
 def _mkse(repo, opaque, **kw):
     se = symx.SymEval(repo, opaque={W + o for o in opaque}, inline_depth=6, **kw)
     se.assume["text:a[ix, iy] != 0.0"] = True     # the zero-coefficient skip in Apply2DPolynomial only saves work
+    se.assume["call:any"] = True                  # ... and so does a skip of all-zero rows
     return se
 
 
@@ -185,6 +215,9 @@ def chains(chk, repo, unbound):
                     dx, dy = dx + P(st["self.distort"]["a"], dx, dy), dy + P(st["self.distort"]["b"], dx, dy)
                 U, V = _mul(cd, dx, dy)
                 what = "SIP polynomial added to the pixel offsets first, then the CD matrix" if use else "CD matrix only"
+            if isinstance(r, sp.Basic) and getattr(r, "func", None) is not None and r.func.__name__ == "image2sph" and len(r.args) == 2:
+                # `return self.image2sph(u, v)`: the pair is returned as produced
+                r = (sp.Function("image2sph_0")(*r.args), sp.Function("image2sph_1")(*r.args))
             ok = isinstance(r, tuple) and len(r) == 2 and all(getattr(t, "func", None) is not None and t.func.__name__ == "image2sph_%d" % i and len(t.args) == 2
                                                              for i, t in enumerate(r))
             why = ""
@@ -235,8 +268,10 @@ def chains(chk, repo, unbound):
     se = _mkse(repo, ("_findxy",))
     tol = sp.Symbol("xtol")
     r = se.run(fi, dict(st, longitude=lon, latitude=lat, xtol=tol), {"distort": True, "find": True})
+    if isinstance(r, sp.Basic) and getattr(r, "func", None) is not None and r.func.__name__ == "_findxy":
+        r = (sp.Function("_findxy_0")(*r.args), sp.Function("_findxy_1")(*r.args))
     ok = isinstance(r, tuple) and len(r) == 2 and all(getattr(t, "func", None) is not None and t.func.__name__ == "_findxy_%d" % i for i, t in enumerate(r)) \
-        and r[0].args[:2] == (lon, lat) and sp.Function("KW_xtol")(tol) in r[0].args
+        and r[0].args[:2] == (lon, lat) and (sp.Function("KW_xtol")(tol) in r[0].args or (len(r[0].args) > 2 and r[0].args[2] == tol))
     chk.ob("R10.2", "sky2image[model,distort=True,find=True]::root-finder", bool(ok), fi.where(),
            "with a distortion model and find=True the result is _findxy(longitude, latitude, xtol=xtol) (got %s)" % str(r)[:160])
     # find is irrelevant without a model
@@ -339,7 +374,7 @@ def tangent(chk, repo):
         chk.ob("R10.5", "image2sph::latitude-from-rotation", r[1] == want1 or symx.equal(r[1], want1)[0], fi.where(), "latitude is the rotated latitude, unchanged")
     eq = all(a == b or symx.equal(a, b)[0] for a, b in zip(res[True], res[False])) if ok and isinstance(res[True], tuple) else False
     chk.ob("R10.7", "image2sph::scalar-and-array-arms-agree", eq, fi.where(), "the scalar arm and the array arm denote the same terms")
-    _fold_sites(chk, fi)
+    _fold_sites(chk, fi, repo)
     # projection
     fi = repo.func(W + "sph2image")
     res = {}
@@ -383,43 +418,71 @@ def tangent(chk, repo):
            "array input solves each (lon[i], lat[i]) with the same index and the same tolerance as the scalar arm")
 
 
-def _fold_sites(chk, fi):
-    """longitude fold into [0,360): `< 0 -> += 360` and `>= 360 -> -= 360` in both arms; the upper test must be >=
-    because adding 360 to a tiny negative longitude rounds to exactly 360"""
-    cfg = cfg_of(fi)
+def _fold_sites(chk, fi, repo=None):
+    """longitude fold into [0,360): `< 0 -> += 360` and `>= 360 -> -= 360` for scalars and arrays; the upper test must be >=
+    because adding 360 to a tiny negative longitude rounds to exactly 360.  The fold may live in image2sph itself or in a helper
+    it calls; conditions may be if-tests (scalars), np.where index arrays or boolean masks (arrays)."""
+    from vcheck.core import PyRepo
+    repo = repo or PyRepo()
+    fns = [fi]
+    for c in walk_no_nested(fi.node):
+        if isinstance(c, ast.Call):
+            d = dotted_name(c.func)
+            if d and d.startswith("self.") and repo.has(W + d[5:]):
+                fns.append(repo.func(W + d[5:]))
+            elif d and repo.has(MOD + "." + d):
+                fns.append(repo.func(MOD + "." + d))
     sites = []
-    for n in cfg.nodes:
-        a = n.ast
-        if n.kind == "stmt" and isinstance(a, ast.AugAssign) and isinstance(a.op, (ast.Add, ast.Sub)) and const_value(a.value) in (360, 360.0):
-            base = a.target.value if isinstance(a.target, ast.Subscript) else a.target
-            # the condition: scalar arm = controlling if-test; array arm = the where() defining the index
+    for f in fns:
+        cfg = cfg_of(f)
+        view = cfg.view()
+        for n in cfg.nodes:
+            a = n.ast
+            step = None
+            if n.kind == "stmt" and isinstance(a, ast.AugAssign) and isinstance(a.op, (ast.Add, ast.Sub)) and const_value(a.value) in (360, 360.0):
+                step = ("Add" if isinstance(a.op, ast.Add) else "Sub", a.target)
+            elif n.kind == "stmt" and isinstance(a, ast.Assign) and isinstance(a.value, ast.BinOp) and isinstance(a.value.op, (ast.Add, ast.Sub)) \
+                    and const_value(a.value.right) in (360, 360.0) and norm(a.value.left) == norm(a.targets[0]):
+                step = ("Add" if isinstance(a.value.op, ast.Add) else "Sub", a.targets[0])
+            if step is None:
+                continue
+            tgt = step[1]
             cond = None
-            if isinstance(a.target, ast.Subscript):
-                idx = norm(a.target.slice)
+            if isinstance(tgt, ast.Subscript):
+                idx = norm(tgt.slice)
                 for m in cfg.nodes:
-                    if m.kind == "stmt" and isinstance(m.ast, ast.Assign) and isinstance(m.ast.value, ast.Call) and call_name(m.ast.value) == "where" \
-                            and idx in [norm(t) for t in ast.walk(m.ast.targets[0]) if isinstance(t, ast.Name)] and m.ast.lineno < a.lineno:
-                        cond = m.ast.value.args[0]
+                    if m.kind == "stmt" and isinstance(m.ast, ast.Assign) and m.ast.lineno < a.lineno and idx in [norm(t) for t in ast.walk(m.ast.targets[0]) if isinstance(t, ast.Name)]:
+                        v = m.ast.value
+                        if isinstance(v, ast.Call) and call_name(v) == "where" and v.args:
+                            cond = v.args[0]
+                        elif isinstance(v, ast.Compare):
+                            cond = v
+                base = norm(tgt.value)
             else:
-                for b, lab in cfg.view().controlling_branches(n)[:1]:
-                    if lab == "T" and b.kind == "branch":
+                for b, lab in view.controlling_branches(n):
+                    if lab == "T" and b.kind == "branch" and isinstance(b.ast.test, ast.Compare):
                         cond = b.ast.test
-            sites.append((n, norm(base), type(a.op).__name__, cond))
-    up = [(n, c) for n, b, op, c in sites if op == "Sub"]
-    lo = [(n, c) for n, b, op, c in sites if op == "Add"]
-    ok = len(up) == 2 and len(lo) == 2
-    chk.ob("R10.5", "image2sph::longitude-fold-sites", ok, fi.where(), "one lower (+360) and one upper (-360) wrap in each of the scalar and array arms (found %d/%d)" % (len(lo), len(up)))
-    for n, c in lo:
-        good = isinstance(c, ast.Compare) and isinstance(c.ops[0], (ast.Lt, ast.LtE)) and const_value(c.comparators[0]) in (0, 0.0) and norm(c.left) == "longitude"
-        chk.ob("R10.5", "image2sph::lower-wrap", good, fi.where(n.ast), "negative longitudes gain 360 (test `%s`)" % (norm(c) if c is not None else None))
-    for n, c in up:
-        good = isinstance(c, ast.Compare) and isinstance(c.ops[0], ast.GtE) and const_value(c.comparators[0]) in (360, 360.0) and norm(c.left) == "longitude"
-        chk.ob("R10.5", "image2sph::upper-wrap-closed", good, fi.where(n.ast),
+                        break
+                base = norm(tgt)
+            sites.append((f, n, base, step[0], cond))
+    up = [(f, n, b, c) for f, n, b, op, c in sites if op == "Sub"]
+    lo = [(f, n, b, c) for f, n, b, op, c in sites if op == "Add"]
+    if not up and not lo:
+        # e.g. a modulo: decided by the symbolic rule elsewhere, nothing to say here
+        chk.ob("R10.5", "image2sph::longitude-fold-sites", None, fi.where(), "no +-360 wrap statements found in image2sph or the helpers it calls")
+        return
+    ok = len(up) == len(lo) and len(up) in (1, 2)
+    chk.ob("R10.5", "image2sph::longitude-fold-sites", ok, fi.where(), "matching lower (+360) and upper (-360) wraps for scalar and array input (found %d/%d)" % (len(lo), len(up)))
+    for f, n, b, c in lo:
+        good = isinstance(c, ast.Compare) and isinstance(c.ops[0], (ast.Lt, ast.LtE)) and const_value(c.comparators[0]) in (0, 0.0) and norm(c.left) == b
+        chk.ob("R10.5", "image2sph::lower-wrap", good, f.where(n.ast), "negative longitudes gain 360 (test `%s`)" % (norm(c) if c is not None else None))
+    for f, n, b, c in up:
+        good = isinstance(c, ast.Compare) and isinstance(c.ops[0], ast.GtE) and const_value(c.comparators[0]) in (360, 360.0) and norm(c.left) == b
+        chk.ob("R10.5", "image2sph::upper-wrap-closed", good, f.where(n.ast),
                "[0,360) is open at the top: the upper wrap must test >= 360 (a tiny negative longitude plus 360 rounds to 360.0) (test `%s`)" % (norm(c) if c is not None else None))
-    # order: lower wrap before upper wrap in each arm
     if ok:
-        for (nl, _), (nu, _) in zip(sorted(lo, key=lambda t: t[0].ast.lineno), sorted(up, key=lambda t: t[0].ast.lineno)):
-            chk.ob("R10.5", "image2sph::upper-wrap-after-lower", nl.ast.lineno < nu.ast.lineno, fi.where(nu.ast), "the >= 360 wrap runs after the +360 wrap so it can catch its rounding")
+        for (f1, nl, _, _), (f2, nu, _, _) in zip(sorted(lo, key=lambda t: t[1].ast.lineno), sorted(up, key=lambda t: t[1].ast.lineno)):
+            chk.ob("R10.5", "image2sph::upper-wrap-after-lower", f1 is f2 and nl.ast.lineno < nu.ast.lineno, f2.where(nu.ast), "the >= 360 wrap runs after the +360 wrap so it can catch its rounding")
 
 
 # ---------------------------------------------------------------------------
@@ -517,6 +580,7 @@ def coeffs(chk, repo):
     u, v = symx.symbols("u", "v")
     se = symx.SymEval(repo, inline_depth=6)
     se.assume["text:a[ix, iy] != 0.0"] = True
+    se.assume["call:any"] = True
     fi = repo.func(W + "ExtractPVCoeffs")
     ap2d = repo.func(MOD + ".Apply2DPolynomial")
     chk.analysed_unit(ap2d.qualname)
@@ -727,15 +791,22 @@ def _state_writes(fi):
 
 
 def _flag_guard(view, n):
-    """(flag attr, branch node) if node n is controlled by a test containing `not self.<flag>` taken true"""
+    """(flag attr, branch node) if node n runs only while a computed-flag is still false: controlled by a test containing
+    `not self.<flag>` taken true, or by a plain `self.<flag>` test taken false (the guard-clause form `if self.flag: return`)"""
     for b, lab in view.controlling_branches(n):
-        if b.kind != "branch" or lab != "T":
+        if b.kind != "branch":
             continue
-        for x in ast.walk(b.ast.test):
-            if isinstance(x, ast.UnaryOp) and isinstance(x.op, ast.Not):
-                r = _attr_root(x.operand) if isinstance(x.operand, ast.Attribute) else None
-                if r is not None:
-                    return r, b
+        t = b.ast.test
+        if lab == "T":
+            for x in ast.walk(t):
+                if isinstance(x, ast.UnaryOp) and isinstance(x.op, ast.Not):
+                    r = _attr_root(x.operand) if isinstance(x.operand, ast.Attribute) else None
+                    if r is not None and not (isinstance(t, ast.BoolOp) and isinstance(t.op, ast.Or)):
+                        return r, b
+        if lab == "F" and isinstance(t, ast.Attribute):
+            r = _attr_root(t)
+            if r is not None:
+                return r, b
     return None, None
 
 
@@ -822,11 +893,16 @@ def state(chk, repo):
     if not flags:
         chk.ob("R10.3", "lazy-inverse::guard-present", False, "esutil/wcsutil.py", "no `not self.<flag>` guard found around the lazily computed inverse coefficients")
     # lazily written keys are read only behind the guard
+    # methods that make sure the lazy value exists: they hold the compute-once guard themselves
+    ensurers = set()
+    for name, fi in methods.items():
+        cfg = cfg_of(fi)
+        view = cfg.view()
+        if any(_flag_guard(view, n)[0] is not None for n in cfg.nodes) and any(attr in flags for n_, attr, sub in _state_writes(fi)[0]):
+            ensurers.add(name)
     for name in sorted(reach_plain - {"<entry>"}):
         fi = methods[name]
         cfg = cfg_of(fi)
-        view = cfg.view()
-        guards = [b for n in cfg.nodes for f, b in [_flag_guard(view, n)] if f is not None]
         for n in cfg.nodes:
             if n.ast is None or n.kind not in ("stmt", "return", "branch"):
                 continue
@@ -835,9 +911,18 @@ def state(chk, repo):
                 if isinstance(x, ast.Subscript) and isinstance(x.ctx, ast.Load):
                     r = _attr_root(x)
                     if r is not None and (r, _subkey(x)) in lazy_written and isinstance(x.value, ast.Attribute):
-                        ok = any(view.dominates(b, n) and b.id != n.id for b in guards)
+                        # decide under the truth values this read's own controlling tests give to plain parameter flags (stable predicates)
+                        fl = {}
+                        for b, lab in cfg.view().controlling_branches(n):
+                            if b.kind == "branch" and isinstance(b.ast.test, ast.Name) and b.ast.test.id in fi.params:
+                                fl[b.ast.test.id] = (lab == "T")
+                        view = cfg.specialise(flags=fl)
+                        guards = [b for m_ in view.nodes() for f, b in [_flag_guard(view, m_)] if f is not None]
+                        ens = [m_ for m_ in view.nodes() if m_.kind == "stmt" and any(dotted_name(c.func) and dotted_name(c.func).startswith("self.") and c.func.attr in ensurers
+                                                                                         for c in rules.stmts_calls(m_))]
+                        ok = any(view.dominates(b, n) and b.id != n.id for b in guards) or any(view.dominates(m_, n) and m_.id != n.id for m_ in ens)
                         chk.ob("R10.3", "%s::read-of-lazy::self.%s[%s]" % (name, r, _subkey(x)), ok, fi.where(n.ast),
-                               "the lazily computed value is read only after the compute-once guard has been passed")
+                               "the lazily computed value is read only after the compute-once guard has been passed (in this method or in a helper it calls first)")
     # scratch: written before every read
     init = methods["__init__"]
     alloc = {}
@@ -934,22 +1019,27 @@ def rootfind(chk, repo):
     for n in cfg.nodes:
         a = n.ast
         if n.kind == "stmt" and isinstance(a, ast.Assign) and len(a.targets) == 1 and _attr_root(a.targets[0]) == "lonlat_answer":
-            st[_subkey(a.targets[0])] = norm(a.value)
+            k_ = _subkey(a.targets[0])
+            if k_ in (":", "0:2", ":2") and isinstance(a.value, (ast.Tuple, ast.List)) and len(a.value.elts) == 2:
+                st["0"], st["1"] = norm(a.value.elts[0]), norm(a.value.elts[1])      # whole-buffer store of (lon, lat)
+            else:
+                st[k_] = norm(a.value)
     chk.ob("R10.9", "_findxy_one::target-roles", st == {"0": lonp, "1": latp}, fi.where(), "target buffer = (longitude, latitude) in the residual's component order (found %s)" % st)
     guess = [c for c in walk_no_nested(fi.node) if isinstance(c, ast.Call) and dotted_name(c.func) == "self.sky2image"]
     ok = len(guess) == 1 and [norm(a) for a in guess[0].args[:2]] == [lonp, latp] and const_value(kwarg(guess[0], "find"), 1) is False
     chk.ob("R10.9", "_findxy_one::initial-guess", ok, fi.where(), "the starting point is the closed-form inverse sky2image(lon, lat, find=False, ...) of the same target (find=False also ends the recursion)")
     # the guess must be what is handed to the solver, and the solver must minimise _lonlatdiff with the tolerance forwarded
     solver_calls = [c for c in walk_no_nested(fi.node) if isinstance(c, ast.Call) and dotted_name(c.func) in ("self._fsolve_xy", "self._lmfind_xy")]
-    ok = len(solver_calls) == 1 and solver_calls[0].args and isinstance(solver_calls[0].args[0], ast.Name)
+    ok = len(solver_calls) == 1 and solver_calls[0].args and isinstance(solver_calls[0].args[0], (ast.Name, ast.Attribute))
     if ok:
-        gname = solver_calls[0].args[0].id
+        canon = lambda e: rules.xnorm(e, fi.node)      # a local alias of self.<buffer> and the attribute itself are the same buffer
+        gname = canon(solver_calls[0].args[0])
         gstores = [n for n in cfg.nodes if n.kind == "stmt" and isinstance(n.ast, ast.Assign) and any(
-            isinstance(t, ast.Subscript) and isinstance(t.value, ast.Name) and t.value.id == gname for tt in n.ast.targets for t in rules._flat_targets(tt))]
+            isinstance(t, ast.Subscript) and canon(t.value) == gname for tt in n.ast.targets for t in rules._flat_targets(tt))]
         ok = len(gstores) == 1 and isinstance(gstores[0].ast.value, ast.Call) and gstores[0].ast.value is guess[0] if guess else False
         if ok:
             t = gstores[0].ast.targets[0]
-            ok = isinstance(t, ast.Tuple) and [norm(e.slice) for e in t.elts] == ["0", "1"]
+            ok = (isinstance(t, ast.Tuple) and [norm(e.slice) for e in t.elts] == ["0", "1"]) or (isinstance(t, ast.Subscript) and norm(t.slice) in (":", "0:2", ":2"))
         ok = ok and (dotted_name(solver_calls[0].func) != "self._fsolve_xy" or (kwarg(solver_calls[0], "xtol") is not None and norm(kwarg(solver_calls[0], "xtol")) == "xtol"))
     chk.ob("R10.9", "_findxy_one::solver-starts-from-guess", bool(ok), fi.where(), "the solver receives the freshly computed guess (x, y) in order and the caller's xtol")
     rets = [x for x in walk_no_nested(fi.node) if isinstance(x, ast.Return)]
